@@ -787,7 +787,14 @@ def configs_for(rnd, case, k):
                 args[k] = args[k] + ":" + rnd.choice(["key", "val", "name", "req", "opts", "handler", "in", "out"])
         # an argument moq must reject, at a random position: unknown name, or a non-interface
         if rnd.random() < 0.05:
-            args.insert(rnd.randrange(len(args) + 1), rnd.choice(["Nope", "T", "N", "nope:Fake"]))
+            bad = rnd.choice(["Nope", "T", "N", "nope:Fake"])
+            if args and rnd.random() < 0.4:
+                # ... asking for the mock name an earlier argument already has
+                first = args[0]
+                bad = bad.split(":")[0] + ":" + (first.split(":")[1] if ":" in first else first + "Mock")
+                args.append(bad)
+            else:
+                args.insert(rnd.randrange(len(args) + 1), bad)
         pn = case.get("pkgname", name)
         pkg = rnd.choice(["", "", "", pn, "other", pn + "_test", "other2", "pkgx"])
         out.append({"dir": name, "pkg": pkg, "stub": rnd.random() < 0.5, "skip": rnd.random() < 0.35,
